@@ -161,14 +161,14 @@ func vIteInt(c bool, a, b int) int {
 	}
 	return b
 }
-func vItoa(n int) string                 { return strconv.Itoa(n) }
-func vValidUTF8(s string) bool           { return utf8.ValidString(s) }
-func vConcretize(x, lo, hi int) int      { vAssume(x >= lo && x <= hi); return x }
-func vSummarise(what string)             {}
-func vTrace(on bool)                     {}
-func vPoolMode(mode string)              {}
-func vIsNaN(f float64) bool              { return math.IsNaN(f) }
-func vIsInf(f float64) bool              { return math.IsInf(f, 0) }
+func vItoa(n int) string            { return strconv.Itoa(n) }
+func vValidUTF8(s string) bool      { return utf8.ValidString(s) }
+func vConcretize(x, lo, hi int) int { vAssume(x >= lo && x <= hi); return x }
+func vSummarise(what string)        {}
+func vTrace(on bool)                {}
+func vPoolMode(mode string)         {}
+func vIsNaN(f float64) bool         { return math.IsNaN(f) }
+func vIsInf(f float64) bool         { return math.IsInf(f, 0) }
 
 // vNoPanic reports whether f returned normally.
 func vNoPanic(f func()) (ok bool) {
